@@ -229,3 +229,36 @@ def first_use_leg(make_jobs, quick=64, thorough=3000, doc=""):
     leg.reeval = False
     leg.opt = False   # not repeated in the python -O child run
     return leg
+
+
+# ---------------------------------------------------------------------------------- RtlReader without hardware
+def fake_rtlsdr():
+    """pyrtlsdr is not installed on this image (and there is no dongle): give `import rtlsdr` a stand-in whose RtlSdr object accepts the
+    attribute assignments of RtlReader.__init__, so that readers are built by their real constructor (debug=..., every attribute set)."""
+    import types
+    if "rtlsdr" in sys.modules:
+        return
+    fake = types.ModuleType("rtlsdr")
+
+    class RtlSdr(object):
+        def __init__(self, *a, **k):
+            pass
+
+        def read_samples_async(self, *a, **k):
+            pass
+
+        def cancel_read_async(self):
+            pass
+
+        def close(self):
+            pass
+
+    fake.RtlSdr = RtlSdr
+    sys.modules["rtlsdr"] = fake
+
+
+def make_reader(cls, debug=False):
+    rd = cls(debug=True) if debug else cls()
+    rd.signal_buffer = []
+    rd.noise_floor = 1e6
+    return rd
